@@ -51,6 +51,18 @@ func (g *genCtx) hire(id string) map[string]interface{} {
 		id: map[string]interface{}{"spec": map[string]interface{}{"inline": fw.Plain(recorderDoc)}, "state": map[string]interface{}{"node": "start", "bs": map[string]interface{}{}}}}}
 }
 
+// hireParked creates (or replaces) recorder id in the middle of its work: at its action node,
+// holding a message it has consumed and not yet recorded.  Whatever it is presented with
+// next - a null message too - lets it go on.
+func (g *genCtx) hireParked(id string) map[string]interface{} {
+	held := map[string]interface{}{"uid": g.uid()}
+	if g.r.Intn(2) == 0 {
+		held["emit"] = []interface{}{map[string]interface{}{"uid": g.uid(), "to": "nobody"}}
+	}
+	return map[string]interface{}{"uid": g.uid(), "to": "captain", "update": map[string]interface{}{
+		id: map[string]interface{}{"spec": map[string]interface{}{"inline": fw.Plain(recorderDoc)}, "state": map[string]interface{}{"node": "rec", "bs": map[string]interface{}{"?m": held}}}}}
+}
+
 func (g *genCtx) fire(ids ...string) map[string]interface{} {
 	l := []interface{}{}
 	for _, id := range ids {
@@ -107,6 +119,10 @@ func (g *genCtx) message(depth int) map[string]interface{} {
 		for k := 1 + g.r.Intn(2); k > 0; k-- {
 			em = append(em, g.message(depth-1))
 		}
+		if g.r.Intn(10) == 0 {
+			// a null message: legal, carries no target, so it is for every ordinary machine
+			em = append(em, nil)
+		}
 		m["emit"] = em
 	}
 	if g.dyn {
@@ -120,6 +136,8 @@ func (g *genCtx) message(depth int) map[string]interface{} {
 			return m
 		case 1:
 			return g.fire(hirePool[g.r.Intn(len(hirePool))], hirePool[g.r.Intn(len(hirePool))])
+		case 4:
+			return g.hireParked(hirePool[g.r.Intn(len(hirePool))])
 		case 2, 3:
 			if depth > 0 {
 				// hire somebody and talk to them straight away
@@ -315,13 +333,38 @@ func sioHistory(cfg fw.Config, rec *fw.Rec, i int) {
 		g.mids = append(append([]string{}, mids...), "nanm")
 	}
 	var history []interface{}
+	// parked[mid]: the message recorder mid has consumed and not yet recorded (it is at its
+	// action node: it was created there, or a step limit ended its walk there)
+	parked := map[string]interface{}{}
+	// present: recorder rc is presented with x (nil: a null message, which no node consumes)
+	// and walks at most `limit` steps; returns what it records and what it emits
+	present := func(rc string, x interface{}) (logged []string, batch []interface{}) {
+		unconsumed := x != nil
+		for steps := 0; steps < limit; steps++ {
+			if held, have := parked[rc]; have {
+				logged = append(logged, uidOf(held))
+				batch = append(batch, expectedBatch(held, rc)...)
+				delete(parked, rc)
+			} else if unconsumed {
+				parked[rc] = x
+				unconsumed = false
+			} else {
+				break
+			}
+		}
+		return
+	}
 	expectLog := map[string][]string{}
 	expectedSentinels := map[string]bool{}
 	expectedTimers := map[string]bool{}
 	for k := 1 + r.Intn(5); k > 0; k-- {
 		var msg interface{} = g.message(3)
-		if r.Intn(12) == 0 {
+		switch r.Intn(12) {
+		case 0:
 			msg = "bare-string-" + g.uid()
+		case 1:
+			msg = nil
+			rec.Bucket("sio_null_message_submitted")
 		}
 		history = append(history, msg)
 		replay := map[string]interface{}{"machines": mids, "history": history}
@@ -360,6 +403,13 @@ func sioHistory(cfg fw.Config, rec *fw.Rec, i int) {
 									ordinary[mid] = true
 									known[mid] = true
 									delete(expectLog, mid)
+									delete(parked, mid)
+									if stm, ok := vm["state"].(map[string]interface{}); ok && stm["node"] == "rec" {
+										if bsm, ok := stm["bs"].(map[string]interface{}); ok {
+											parked[mid] = fw.Plain(bsm["?m"])
+											rec.Bucket("sio_machine_hired_in_the_middle_of_its_work")
+										}
+									}
 									rec.Bucket("sio_machine_hired_during_processing")
 									continue
 								}
@@ -374,6 +424,7 @@ func sioHistory(cfg fw.Config, rec *fw.Rec, i int) {
 									}
 									delete(ordinary, id)
 									delete(expectLog, id)
+									delete(parked, id)
 								}
 							}
 						}
@@ -383,11 +434,16 @@ func sioHistory(cfg fw.Config, rec *fw.Rec, i int) {
 					}
 					continue
 				}
-				expectLog[rc] = append(expectLog[rc], uidOf(x))
+				_, wasParked := parked[rc]
+				logged, b := present(rc, x)
+				expectLog[rc] = append(expectLog[rc], logged...)
 				if hiredAt[rc] {
 					rec.Bucket("sio_delivery_to_machine_hired_in_this_history")
 				}
-				if b := expectedBatch(x, rc); b != nil {
+				if wasParked && x == nil && len(logged) > 0 {
+					rec.Bucket("sio_null_message_lets_a_machine_go_on")
+				}
+				if b != nil {
 					want[fw.Canon(b)]++
 					nb++
 				}
@@ -479,8 +535,8 @@ func sioHistory(cfg fw.Config, rec *fw.Rec, i int) {
 
 func Run(cfg fw.Config, rec *fw.Rec) {
 	log.SetOutput(io.Discard)
-	rec.Rule = "crews (step limit 50, 3 or 2 - the last ends every recorder walk by the limit) of 0-6 recorder machines (ids incl. look-alikes of service names and the empty id) x histories of 1-5 submitted messages whose 'emit' fields script up to 3 generations of routed and unrouted follow-ups; targets: absent, an id, an unknown id, '*', lists with unknown / repeated / non-string members, the empty list, captain / timers; some messages carry crew-op or timer-request payloads that a wrongly addressed service machine would act on; in every second history crew operations addressed to the captain - submitted or emitted by recorders - hire, replace and fire recorders while messages to them are in flight (hire-then-talk, talk-then-hire, hire-talk-fire-talk within one emission batch), and the model's membership changes at the point of the breadth-first order where the captain is presented with the operation; the routing reference model replays Result.Emitted (breadth-first, per-machine emission order, every batch consumed exactly) and predicts every machine's log as a sequence; non-trivial = history with >= 2 deliveries; distinct by (machines, history)"
-	rec.Required = []string{"sio_messages_checked", "sio_histories_with_deliveries", "sio_empty_crew", "sio_machine_hired_during_processing", "sio_machine_fired_during_processing", "sio_delivery_to_machine_hired_in_this_history", "sio_histories_under_a_step_limit_that_ends_every_walk", "sio_histories_with_a_machine_whose_state_cannot_be_serialised"}
+	rec.Rule = "crews (step limit 50, 3 or 2 - the last ends every recorder walk by the limit) of 0-6 recorder machines (ids incl. look-alikes of service names and the empty id) x histories of 1-5 submitted messages whose 'emit' fields script up to 3 generations of routed and unrouted follow-ups; targets: absent, an id, an unknown id, '*', lists with unknown / repeated / non-string members, the empty list, captain / timers; some messages carry crew-op or timer-request payloads that a wrongly addressed service machine would act on; in every second history crew operations addressed to the captain - submitted or emitted by recorders - hire, replace and fire recorders while messages to them are in flight (hire-then-talk, talk-then-hire, hire-talk-fire-talk within one emission batch), and the model's membership changes at the point of the breadth-first order where the captain is presented with the operation; null messages are submitted and emitted (for every ordinary machine; no node consumes one, but a recorder hired at its action node, or left there by the step limit, goes on when presented with one); the routing reference model walks each recorder as the two-node machine it is, under the crew's limit, replays Result.Emitted (breadth-first, per-machine emission order, every batch consumed exactly) and predicts every machine's log as a sequence; non-trivial = history with >= 2 deliveries; distinct by (machines, history)"
+	rec.Required = []string{"sio_messages_checked", "sio_histories_with_deliveries", "sio_empty_crew", "sio_machine_hired_during_processing", "sio_machine_fired_during_processing", "sio_delivery_to_machine_hired_in_this_history", "sio_histories_under_a_step_limit_that_ends_every_walk", "sio_histories_with_a_machine_whose_state_cannot_be_serialised", "sio_null_message_submitted", "sio_machine_hired_in_the_middle_of_its_work", "sio_null_message_lets_a_machine_go_on"}
 	rec.Assume = []string{"numbers / objects as routing targets are defined by neither code nor documentation and are recorded, not judged", "machine order within a round is unspecified: batches of one round are matched as a multiset and re-queued in the observed order"}
 	n := cfg.Pick(3000, 50000)
 	fw.Parallel(cfg.Workers, n, func(w, i int) { sioHistory(cfg, rec, i) })
